@@ -245,6 +245,16 @@ pub fn main_orderby(mode: &str) {
         let _ = ki;
     }}
     rows.reverse();
+    // a first key without value for every row (variable never bound / expression raising an error): the second key decides alone
+    for (ord, xd) in [("?nope ?x", false), ("?nope DESC(?x)", true), ("DESC(?nope) ?x", false), ("(?k + \"x\") ?x", false), ("?nope ?nope2 DESC(?x)", true)] {
+        let out = run_query(&rows, ord);
+        if out.len() != rows.len() { fail("ORDER BY with a valueless first key lost or duplicated rows", format!("{}: {} of {}", ord, out.len(), rows.len())); }
+        for i in 0..out.len() { for j in i + 1..out.len() {
+            let (x1, x2) = (meta[out[i]].1, meta[out[j]].1);
+            let mut o = t[x1][x2]; if xd { o = o.reverse(); }
+            if o == Ordering::Greater { fail("ORDER BY: a key without value on both sides must leave the decision to the later keys", format!("ORDER BY {}: {} appears before {}", ord, p[x1].name, p[x2].name)); }
+        }}
+    }
     for (ord, kd, xd) in [("?k ?x", false, false), ("?k DESC(?x)", false, true), ("DESC(?k) ?x", true, false), ("DESC(?k) DESC(?x)", true, true)] {
         let out = run_query(&rows, ord);
         if out.len() != rows.len() { fail("two-key ORDER BY lost or duplicated rows", format!("{}: {} of {}", ord, out.len(), rows.len())); }
